@@ -103,9 +103,24 @@ def pdf_chain(prog, rep):
     guard = False
     for st in cfg.all_stmts():
         if isinstance(st, ast.Raise) and ret:
-            for l in pcs.of(st):
+            for l in [d_ for l0 in pcs.of(st) for d_ in (l0[1] if l0[0] == "or" else (l0,))]:
                 if l[0] == "not" and l[1][0] == "cmp" and l[1][1] == "==" and nd in (l[1][2], l[1][3]) and any(w[0] == "attr" and w[2] == "shape" for w in walk(l[1])):
                     guard = guard or cfg.dominates(cfg.node(cfg.enclosing(st)[0][0]), cfg.node(ret[-1]))
+    # ... and the points are a MATRIX: the chain indexes fs[:, i] and x[:, i], for a 3-D array that is the second axis - a (2, 3, 2) array passes the
+    # test of the last axis and fs[:, 2] is never written
+    two_d = False
+    for st in cfg.all_stmts():
+        if isinstance(st, ast.Raise) and ret:
+            alts_ = [d_ for l in pcs.of(st) for d_ in (l[1] if l[0] == "or" else (l,))]
+            for l in alts_:
+                if l[0] == "not" and l[1][0] == "cmp" and l[1][1] == "==" and ("const", 2) in (l[1][2], l[1][3]) \
+                        and any((w[0] == "attr" and w[2] == "ndim") or w == G("numpy.ndim") or (w[0] == "call" and w[1] == G("len") and any(v[0] == "attr" and v[2] == "shape" for v in walk(w))) for w in walk(l[1])):
+                    two_d = two_d or cfg.dominates(cfg.node(cfg.enclosing(st)[0][0]), cfg.node(ret[-1]))
+    reshaped = any(isinstance(n_, ast.Call) and isinstance(n_.func, ast.Attribute) and n_.func.attr == "reshape" and any(isinstance(a_, ast.UnaryOp) for a_ in n_.args + [e_ for a2 in n_.args if isinstance(a2, ast.Tuple) for e_ in a2.elts])
+                   for n_ in ast.walk(fn.node))
+    rep.check(two_d or reshaped, "C06.chain", f"{fn.qualname}:matrix", fn.where(), "points that are not a 2-D array are rejected (or reshaped to (-1, n_dim))",
+              "only the LAST axis of the points is compared with n_dim: model.pdf of a (2, 3, 2) array passes, the chain fills fs[:, 0] and fs[:, 1] of a (2, 3, 2) buffer and the "
+              "product runs over uninitialised fs[:, 2] (the same call returns 7.99e-306, 0.0, 30, 132 ...); reject x.ndim != 2")
     rep.check(sized or guard, "C06.chain", f"{fn.qualname}:columns", fn.where(), "the factor matrix has exactly n_dim columns (points with another number of columns are rejected)",
               "the factor matrix takes its number of columns from the points and only the columns 0..n_dim-1 are written: model.pdf of points with an extra column "
               "multiplies uninitialised memory into the density (identical rows gave values from 5.96e-311 to 0.894)")
